@@ -141,6 +141,13 @@ def normalize_set(s):
     )
 
 
+@normalize_token.register(frozenset)
+def normalize_frozenset(s):
+    return "frozenset", _normalize_seq_func(
+        sorted(s, key=lambda x: (str(x), type(x).__name__))
+    )
+
+
 def _normalize_seq_func(seq: Iterable[object]) -> tuple[object, ...]:
     def _inner_normalize_token(item):
         # Don't go through Dispatch. That's slow
